@@ -38,7 +38,7 @@ IsMerge(t) == t.op.name \in {"merge_renumber", "merge_dropdup"}
 PoolOf(t) == Range(Tbl(t.a0)) \cup Range(Tbl(t.b0)) \cup
              (IF IsMerge(t) THEN Range(Tbl(t.op.a2)) \cup Range(Tbl(t.op.b2)) ELSE {})
 
-QueryFields == <<"sid", "tomo", "obj", "cls">>
+QueryFields == <<"sid", "tomo", "obj", "cls", "score">>
 
 Specific(t, T, Bt, P) ==
     LET n == t.op.name IN
@@ -67,8 +67,8 @@ Failing(t) ==
         ELSE IF ~TagsIntact(PoolOf(t), Touched(t.op.name), P) \/ Q # Bt THEN "C08_TagsIntact"
         ELSE IF Specific(t, T, Bt, P) # "none" THEN Specific(t, T, Bt, P)
         \* the read-only queries made on the live object right after the call describe the CURRENT table:
-        \* t.uniq[m] = get_unique_values of key column m (sid, tomo, obj, cls), t.featsid = get_feature("subtomo_id")
-        ELSE IF \E m \in 1..4 : t.uniq[m] # DistinctSeq(P, QueryFields[m]) THEN "C08_QueriesCurrent"
+        \* t.uniq[m] = get_unique_values of column m (sid, tomo, obj, cls, score), t.featsid = get_feature("subtomo_id")
+        ELSE IF \E m \in 1..5 : t.uniq[m] # DistinctSeq(P, QueryFields[m]) THEN "C08_QueriesCurrent"
         ELSE IF t.featsid # [k \in DOMAIN P |-> P[k].sid] THEN "C08_QueriesCurrent"
         ELSE "none"
 
